@@ -103,6 +103,57 @@ type Alt_ struct {
 	Error  bool   `json:"error,omitempty"` // body starts with the symbol error
 	Syms   []Sym  `json:"syms,omitempty"`  // without the leading error
 	Action string `json:"act,omitempty"`   // text between << and >> ("" = none)
+	// Spec is the structured form of Action when the harness generated it (the
+	// reference evaluators work on Spec, gocc sees Action).
+	Spec *ActSpec `json:"spec,omitempty"`
+}
+
+// ActSpec describes a generated action.
+//
+//	Style "pass": << $K, nil >>
+//	Style "rec":  << h.N($Context, Tag, args…) >> where arg i is $Idx or $TIdx
+type ActSpec struct {
+	Style string   `json:"style"`
+	Tag   string   `json:"tag,omitempty"`
+	K     int      `json:"k,omitempty"`
+	Args  []ActArg `json:"args,omitempty"`
+}
+
+type ActArg struct {
+	Idx   int  `json:"i"`
+	AsTok bool `json:"t,omitempty"`
+}
+
+// Render returns the action text for the spec.
+func (a *ActSpec) Render() string {
+	switch a.Style {
+	case "pass":
+		return fmt.Sprintf("$%d, nil", a.K)
+	case "rec":
+		s := fmt.Sprintf("h.N($Context, %q", a.Tag)
+		for _, x := range a.Args {
+			if x.AsTok {
+				s += fmt.Sprintf(", $T%d", x.Idx)
+			} else {
+				s += fmt.Sprintf(", $%d", x.Idx)
+			}
+		}
+		return s + ")"
+	}
+	return ""
+}
+
+// NumBody returns the number of body symbols as gocc counts them (the error
+// symbol included, empty = 0).
+func (a *Alt_) NumBody() int {
+	if a.Empty {
+		return 0
+	}
+	n := len(a.Syms)
+	if a.Error {
+		n++
+	}
+	return n
 }
 
 type Prod struct {
